@@ -213,7 +213,9 @@ def judge(res, listed):
             json.dumps(m["reply"]["set"]), (" [" + m["raw"].get("err", "") + "]") if m["raw"].get("err") else "")
         if m["raw"].get("diff"):
             txt += " differs-on=" + ",".join(m["raw"]["diff"])
-        if m["raw"].get("cname"):
+        if m["raw"].get("key"):
+            txt += " key=" + json.dumps(m["raw"]["key"])
+        elif m["raw"].get("cname"):
             txt += " release-name=" + json.dumps(m["raw"]["cname"])
         viol.append(("Trace" + m["what"].capitalize(), m["scenario"], m["drv"], m["step"], txt))
     rejected = {(m["scenario"], m["drv"]): m["step"] for m in res["mismatches"]}
